@@ -393,6 +393,27 @@ fn spawn_worker(exe: &std::path::Path, args: &[String], from: usize, st: &mut Fa
     Ok(ChildResult { completed_to, exit, stderr_tail, in_flight })
 }
 
+/// "thread 'c12-worker' (12345) has overflowed" -> without the OS thread id (it differs from run to run)
+fn scrub_tid(s: &str) -> String {
+    let mut out = String::new();
+    let mut rest = s;
+    while let Some(p) = rest.find("' (") {
+        let after = &rest[p + 3..];
+        match after.find(')') {
+            Some(q) if after[..q].chars().all(|c| c.is_ascii_digit()) => {
+                out.push_str(&rest[..p + 1]);
+                rest = &after[q + 1..];
+            }
+            _ => {
+                out.push_str(&rest[..p + 3]);
+                rest = after;
+            }
+        }
+    }
+    out.push_str(rest);
+    out
+}
+
 /// Run [lo, hi) of a family to completion, restarting children after every death.
 fn run_shard(exe: &std::path::Path, fam: &Fam, tier: &str, lo: usize, hi: usize) -> Result<FamStats, String> {
     let mut st = FamStats::default();
@@ -438,7 +459,7 @@ fn run_shard(exe: &std::path::Path, fam: &Fam, tier: &str, lo: usize, hi: usize)
                     let Some(c) = r.in_flight else { return Err(format!("family {}: worker died by signal {sig} outside an input: {}", fam.name, r.stderr_tail)) };
                     let overflow = r.stderr_tail.contains("overflowed its stack") || r.stderr_tail.contains("stack overflow");
                     st.crashes += 1;
-                    st.bad.push((c, Bad::Crash { signal: sig, overflow, stderr: r.stderr_tail.lines().rev().take(3).collect::<Vec<_>>().into_iter().rev().collect::<Vec<_>>().join(" | ") }));
+                    st.bad.push((c, Bad::Crash { signal: sig, overflow, stderr: scrub_tid(&r.stderr_tail.lines().filter(|l| !l.trim().is_empty()).rev().take(2).collect::<Vec<_>>().into_iter().rev().collect::<Vec<_>>().join(" | ")) }));
                     from = c + 1;
                     forced_trace_until = None;
                 } else {
@@ -584,7 +605,12 @@ pub fn run(cx: &Cx) {
             if f.expect_pass && st.err2 + st.acc == 0 {
                 cx.machinery_error(format!("family {}: no input got past the first decoder (the family is designed to contain well-formed members)", f.name));
             }
-            for id in st.pass_ids.iter().take(2) {
+        }
+        let mut pass_sorted = st.pass_ids.clone();
+        pass_sorted.sort_unstable();
+        pass_sorted.dedup();
+        if f.judged {
+            for id in pass_sorted.iter().take(2) {
                 let input = (f.make)(*id);
                 cx.sample(agv_engine::h64(&(&f.name, *id)), json!({"family": f.name, "idx": id, "what": input.desc, "input": seams::render(&input), "outcome": "answered (decoded and executed)"}));
             }
